@@ -1880,3 +1880,122 @@ def c17(tier):
                               'std::path / std::fs (Path algebra per std\'s documented component semantics, a file-system map with create = truncate). Every run is compared with the library output '
                               'computed from the same MIR; every finding is replayed with the natively built zeep binary in a scratch directory. Real OS behaviour (permissions, symlinks, '
                               'non-UTF-8 names) is outside.')
+
+
+# ================================================================================================ C13
+
+C13_DOCS = {
+    'types.xsd': '''<xs:schema xmlns:xs="http://www.w3.org/2001/XMLSchema" xmlns:t="urn:t" targetNamespace="urn:t">
+<xs:simpleType name="Code"><xs:annotation><xs:documentation>doc</xs:documentation></xs:annotation><xs:restriction base="xs:string"><xs:maxLength value="3"/><xs:enumeration value="A"/></xs:restriction></xs:simpleType>
+<xs:simpleType name="Codes"><xs:list itemType="t:Code"/></xs:simpleType>
+<xs:simpleType name="Either"><xs:union memberTypes="t:Code xs:int"/></xs:simpleType>
+<xs:complexType name="Base"><xs:sequence><xs:element name="id" type="xs:long"/></xs:sequence><xs:attribute name="v" type="xs:string" use="required"/></xs:complexType>
+<xs:complexType name="Derived"><xs:complexContent><xs:extension base="t:Base"><xs:sequence><xs:element name="code" type="t:Code" minOccurs="0" maxOccurs="unbounded"/><xs:choice><xs:element name="a" type="xs:int"/><xs:element ref="t:Note"/></xs:choice><xs:any/></xs:sequence><xs:attribute name="w" type="xs:string"/></xs:extension></xs:complexContent></xs:complexType>
+<xs:element name="Note" type="xs:string"/>
+<xs:element name="Wrapper"><xs:complexType><xs:sequence><xs:element name="d" type="t:Derived"/></xs:sequence></xs:complexType></xs:element>
+<xs:group name="Grp"><xs:sequence><xs:element name="g" type="xs:string"/></xs:sequence></xs:group>
+</xs:schema>''',
+}
+
+
+def c13(tier):
+    def body(s):
+        ctx = s.ctx
+        s.functions.update(n for n in ctx.bodies if '::tests::' not in n and ctx.bodies[n].kind == 'fn')
+        budget = 2 if tier == 'thorough' else 1
+        from xmltree import build as _build, to_xml as _to_xml
+        small = _to_xml(_build(F.wsdl_multi(1, multipart=True).tree()))
+        docs = [('types.xsd', {'types.xsd': C13_DOCS['types.xsd']}, 'types.xsd'), ('small.wsdl', {'small.wsdl': small}, 'small.wsdl')]
+        if tier == 'thorough':
+            docs.append(('all_emitters.wsdl', corpus_files('all_emitters.wsdl'), 'all_emitters.wsdl'))
+        for name, files, start in docs:
+            doc, flags, sels, dom = F.departure_doc(files[start], budget=budget)
+            fs = dict(files)
+            fs[start] = doc
+            sc = Scenario('departures:' + name, fs, start, [])
+            sc.domain = dom
+            sc.selectors = sels
+            sc.departure = (budget, {x.name: x.var for x in sels})
+            s.scenarios += 1
+            res = sc.explore(ctx, max_paths=40000)
+            s.count(res)
+            if len(res) > 1:
+                s.nontrivial += 1
+            stats = dict(scenario=sc.name, departures_at_once=budget, optional_attributes_and_elements=len(flags), retargetable_qnames=len(sels), paths=len(res), ok=0, err=0, panic=0, diverge=0, violations=[])
+            seen = set()
+            for m, out in res:
+                if out[0] == 'ok':
+                    stats['ok' if out[1][0] == 'ok' else 'err'] += 1
+                    continue
+                stats[out[0]] += 1
+                e = out[1]
+                where = re.sub(r'<impl at [^>]*>', '<impl>', getattr(e, 'where', '') or '')
+                kind = 'panic' if out[0] == 'panic' else 'non-termination'
+                key = 'c13/%s/%s/%s' % (kind, where.split('::')[-1] or '?', re.sub(r'[^\w ]+', '', str(e))[:40].strip().replace(' ', '-'))
+                if key in seen:
+                    continue
+                seen.add(key)
+                model = sc.solve(m)
+                if model is None:
+                    continue
+                active = [str(b) for b in flags if z3.is_true(model.eval(b, model_completion=True))] + ['%s=%s' % (x.name, x.value_in(model)) for x in sels if x.value_in(model) != x.options[0]]
+                rc, txt, log_, cfiles = sc.native(ctx, model)
+                s.replays += 1
+                rdir = save_replay('C13', re.sub(r'\W+', '_', key)[:80], dict(list(cfiles.items()) + [
+                    ('finding.txt', '%s\n%s in %s\ndepartures: %s\nnative rc=%s\n%s\n' % (key, e, where, active, rc, (log_ or '')[-600:]))]))
+                crashed = rc != 0 and ('panicked' in (log_ or '') or 'overflowed its stack' in (log_ or '') or rc < 0)
+                # the CLI turns every Err into a panic through expect(): only a panic that is NOT one of main's own expect messages is the library's
+                lib_panic = crashed and not re.search(r"main\.rs:\d+:\d+:\ncan not (read xml|write xml|read input file|create file)", log_ or '')
+                stats['violations'].append(key)
+                if lib_panic:
+                    s.rep.violation(key, '%s: %s with departures %s' % (name, e, active), rdir)
+                else:
+                    s.rep.inconc('ENCODING-MISMATCH %s: SMI %s (%s) but native rc=%s: %s' % (key, kind, active, rc, (log_ or '')[-200:].replace('\n', ' | ')))
+            s.samples.append(stats)
+        # a message part that names a global component which is not an element (schema-invalid, but any input must be survived)
+        single = _to_xml(_build(F.wsdl_multi(1, multipart=False).tree()))
+        odd = single.replace('<xs:element name="GetQuoteRequest">', '<xs:attribute name="GetQuoteRequest" type="xs:string"/><xs:element name="Unused">', 1)
+        if odd != single:
+            s.scenarios += 1
+            sc = Scenario('part-names-a-global-attribute', {'odd.wsdl': odd}, 'odd.wsdl', [])
+            res = sc.explore(ctx)
+            s.count(res)
+            for m, out in res:
+                if out[0] in ('panic', 'diverge'):
+                    rc, txt, log_, cfiles = sc.native(ctx, sc.solve(m))
+                    s.replays += 1
+                    rdir = save_replay('C13', 'part_names_a_global_attribute', dict(list(cfiles.items()) + [('finding.txt', '%s\nnative rc=%s\n%s' % (out[1], rc, (log_ or '')[-500:]))]))
+                    lib_panic = rc != 0 and 'panicked' in (log_ or '') and not re.search(r"main\.rs:\d+:\d+:\ncan not (read xml|write xml|read input file|create file)", log_ or '')
+                    if lib_panic:
+                        s.rep.violation('c13/panic/body-part-is-not-an-element', 'a message part whose element= names a global xs:attribute: %s' % out[1], rdir)
+                    else:
+                        s.rep.inconc('ENCODING-MISMATCH odd.wsdl: SMI %s, native rc=%s %s' % (out[1], rc, (log_ or '')[-200:]))
+            s.samples.append(dict(scenario=sc.name, paths=len(res), outcomes=[o[0] if o[0] != 'ok' else o[1][0] for _, o in res]))
+        # a start file name that is not in the file set
+        s.scenarios += 1
+
+        def entry(m):
+            ftr = H.make_files(m, {'a.xsd': C13_DOCS['types.xsd']}, 'not-registered.xsd')
+            return H.read_xml(m, ftr)
+        res = explore(lambda: H.machine(ctx), entry)
+        s.count(res)
+        for m, out in res:
+            if out[0] == 'panic':
+                driver = native.build_driver()
+                d = tempfile.mkdtemp(prefix='zeep-verif-c13.')
+                try:
+                    write_files(d, {'a.xsd': C13_DOCS['types.xsd']})
+                    rc, o, _ = native.run_driver(driver, d, 'not-registered.xsd', os.path.join(d, '__o'))
+                finally:
+                    rmtree(d)
+                s.replays += 1
+                rdir = save_replay('C13', 'start_file_not_registered', {'a.xsd': C13_DOCS['types.xsd'], 'finding.txt': 'FilesToRead::new("not-registered.xsd", files) then read_xml: %s\nnative driver: %s\n' % (out[1], o)})
+                if 'PANIC' in o:
+                    s.rep.violation('c13/panic/start-file-not-registered', 'read_xml panics when the start file name is not among the registered files (%s)' % out[1], rdir)
+                else:
+                    s.rep.inconc('ENCODING-MISMATCH start file: native says %s' % o)
+        s.samples.append(dict(scenario='start file not in the file set', paths=len(res)))
+    return run_e2('C13', tier, body, bounds='departure mode on a schema exercising every reader branch (restriction / list / union simple types, extension, choice, any, ref, group, anonymous type) and on the '
+                  'all-emitters WSDL: every attribute and every non-root element may be missing, every QName-valued attribute may dangle or name its own component; at most 1 (quick) / 2 (thorough) '
+                  'departures at a time, enforced as a z3 cardinality constraint; plus a start file that is not registered. Import cycles are C11. Divergence = call depth > 60. Outside: text that is '
+                  'not well-formed XML beyond "parse fails" (roxmltree), inputs not expressible as departures from these documents, wall-clock time.')
